@@ -49,6 +49,8 @@ Round 4b – the two axes of table/heatmap/spark and the render loop (`Rare/Mode
   axes    <rname> <cname> <rowkeys> <colkeys> <renders> <rdl> <cdl>   two `BuildSorter` closures (rows, columns), their
                                                       variables threaded through every render (columns first, then rows;
                                                       Go's insertion sort, n ≤ 12); `<renders>` = `.` | `cols:rows/…` index lists
+  topn    <name> <keys> <values> <n> <dl>             `MatchCounter.ItemsSortedBy(n, sorter)` through the real counter: the first n
+                                                      rows of the specified order (`panic` for n < 0 ≤ rows; `unmodelled` unless uniform)
   axesagg <rname> <cname> <rowkeys> <colkeys> <renders> <rdl> <cdl>   cumulative renders through the real TableAggregator:
                                                       the specified order of each axis (`unmodelled` unless both are uniform)
 -/
@@ -361,7 +363,24 @@ def handle : List String → String
     | none => "bad-args"
     | some d => axiomsAnswer d
   | [op, name, keys, values, extra, dl] =>
-    if op = "dsort" ∨ op = "dsortspec" ∨ op = "dagg" ∨ op = "dcmpseq" then
+    if op = "topn" then
+      match parseDataL name keys values dl, extra.toInt? with
+      | some (.inl w), _ => w
+      | some (.inr d), some n =>
+        match resolve d with
+        | .inl ans => ans
+        | .inr (m, rev) =>
+          -- whether `items[:count]` panics depends on the number of rows only, not on their order
+          match minSlice d.items n with
+          | .error _ => "panic"
+          | .ok _ =>
+            if uniform d m then
+              match minSlice (isort (specLess d m rev) d.items) n with
+              | .ok l => s!"ok {names l}"
+              | .error _ => "panic"
+            else "unmodelled stateful-nonuniform"
+      | _, _ => "bad-args"
+    else if op = "dsort" ∨ op = "dsortspec" ∨ op = "dagg" ∨ op = "dcmpseq" then
       match parseDataL name keys values dl with
       | none => "bad-args"
       | some (.inl w) => w
